@@ -845,3 +845,49 @@ func c17r13(c *Ctx, r *Report) {
 	r.floor("error values produced inside loops of option parsers", n, 100)
 	r.info("carried", token.NoPos, nil, fmt.Sprintf("%d of them are carried across iterations", carriedN))
 }
+
+// c17r14: option parsing edits the theme in place (--style sets Theme.Gutter, --color edits single
+// entries). Options.Theme therefore has to be a private copy: storing one of the shared package-level
+// themes of package tui makes those edits permanent for the process, and a later option that selects the same
+// base theme no longer resets it (D28: --no-256 stored tui.Default16 itself, so
+// `--no-256 --style=minimal --no-256` kept the gutter of --style=minimal).
+func c17r14(c *Ctx, r *Report) {
+	l := c.L
+	r.rule("C17-R14", "F (alias of shared storage)", "P1",
+		"every value stored into Options.Theme is the result of a call (a constructor or dupeTheme), never the load of a package-level variable",
+		"a later occurrence of an option does not override an earlier one: the base theme it selects still carries the edits made through the alias")
+	fTheme := l.Field("fzf", "Options", "Theme")
+	if fTheme == nil {
+		r.unest("anchors", token.NoPos, nil, "anchor Options.Theme", "cannot resolve")
+		return
+	}
+	n := 0
+	for _, fn := range l.AllFuncs() {
+		if fn.Blocks == nil || fn.Pkg != l.pkg("fzf") {
+			continue
+		}
+		k := 0
+		eachInstr(fn, func(in ssa.Instruction) {
+			st, ok := in.(*ssa.Store)
+			if !ok {
+				return
+			}
+			if fld, _ := fieldOf(st.Addr); fld != fTheme {
+				return
+			}
+			n++
+			k++
+			shared := ""
+			for w := range backwardSlice(st.Val, nil, nil) {
+				if u, ok := w.(*ssa.UnOp); ok && u.Op == token.MUL {
+					if g, ok := u.X.(*ssa.Global); ok {
+						shared = g.Name()
+					}
+				}
+			}
+			r.check(shared == "", fmt.Sprintf("%s:store #%d into Options.Theme", relName(fn), k), st.Pos(), fn, "a private copy is stored",
+				fmt.Sprintf("the shared package-level theme %s itself is stored: later in-place edits (--style, --color) modify it for the rest of the process", shared))
+		})
+	}
+	r.floor("stores into Options.Theme", n, 4)
+}
